@@ -41,7 +41,7 @@ ASSUME \A w \in ModelWords : McTokenCrcOk(w % 256, w \div 256) = Usb2TokenOk(w %
 \* (while blind the detector may output anything: the model lets it report a token or a frame at will)
 Outputs(i, p1) == {o \in {[ev |-> e, frame |-> f, sel |-> s] :
                          e \in {<<>>, <<p1>>} \cup (IF blind > 0 THEN {<<Token(PID_OUT, i.addr, 0)>>, <<Sof(5)>>} ELSE {}),
-                         f \in {frame, p1.x} \cup (IF blind > 0 THEN {5} ELSE {}),
+                         f \in ({frame, p1.x} \cup (IF blind > 0 THEN {5} ELSE {}) \cup (IF frame = FrameUnknown THEN {0} ELSE {})) \ {FrameUnknown},
                          s \in {<<FALSE, FALSE, FALSE, FALSE>>,
                                 <<p1.x = PID_IN, p1.x = PID_OUT, p1.x = PID_SETUP, p1.x = PID_PING>>}} :
                  OutViolationP(i, o, p1) = "ok"}
@@ -115,7 +115,7 @@ ASSUME /\ ExpectHandshake(<<210>>) = Handshake("ack")   /\ ExpectHandshake(<<90>
        /\ ExpectHandshake(<<30>>)  = Handshake("stall") /\ ExpectHandshake(<<150>>) = Handshake("nyet")
        /\ ExpectHandshake(<<210, 0>>) = NoEvent /\ ExpectHandshake(<<>>) = NoEvent
 
-TypeOK == /\ act \in BOOLEAN /\ age \in 0..(Lat + 1) /\ blind \in 0..(Lat + 1) /\ quiet \in 0..QuietSat /\ frame \in 0..2047
+TypeOK == /\ act \in BOOLEAN /\ age \in 0..(Lat + 1) /\ blind \in 0..(Lat + 1) /\ quiet \in 0..QuietSat /\ frame \in 0..2048
           /\ Len(pkt) <= 3 + MaxExtra
 EnvOK == TRUE
 =============================================================================
